@@ -1,9 +1,13 @@
-use crate::{LonelyBlockHash, UnverifiedBlock};
+use crate::{LonelyBlockHash, UnverifiedBlock, delete_unverified_block};
 use ckb_channel::{Receiver, Sender};
-use ckb_logger::{debug, info};
+use ckb_error::InternalErrorKind;
+use ckb_logger::{debug, error, info};
 use ckb_shared::Shared;
+use ckb_shared::block_status::BlockStatus;
 use ckb_store::ChainStore;
+use ckb_types::packed::Byte32;
 use crossbeam::select;
+use dashmap::DashSet;
 use std::sync::Arc;
 
 pub(crate) struct PreloadUnverifiedBlocksChannel {
@@ -11,6 +15,8 @@ pub(crate) struct PreloadUnverifiedBlocksChannel {
     preload_unverified_rx: Receiver<LonelyBlockHash>,
 
     unverified_block_tx: Sender<UnverifiedBlock>,
+
+    is_pending_verify: Arc<DashSet<Byte32>>,
 
     stop_rx: Receiver<()>,
 }
@@ -20,12 +26,14 @@ impl PreloadUnverifiedBlocksChannel {
         shared: Shared,
         preload_unverified_rx: Receiver<LonelyBlockHash>,
         unverified_block_tx: Sender<UnverifiedBlock>,
+        is_pending_verify: Arc<DashSet<Byte32>>,
         stop_rx: Receiver<()>,
     ) -> Self {
         PreloadUnverifiedBlocksChannel {
             shared,
             preload_unverified_rx,
             unverified_block_tx,
+            is_pending_verify,
             stop_rx,
         }
     }
@@ -53,7 +61,9 @@ impl PreloadUnverifiedBlocksChannel {
     fn preload_unverified_channel(&self, task: LonelyBlockHash) {
         let block_number = task.block_number_and_hash.number();
         let block_hash = task.block_number_and_hash.hash();
-        let unverified_block: UnverifiedBlock = self.load_full_unverified_block_by_hash(task);
+        let Some(unverified_block) = self.load_full_unverified_block_by_hash(task) else {
+            return;
+        };
 
         if let Some(metrics) = ckb_metrics::handle() {
             metrics
@@ -70,37 +80,58 @@ impl PreloadUnverifiedBlocksChannel {
         }
     }
 
-    fn load_full_unverified_block_by_hash(&self, task: LonelyBlockHash) -> UnverifiedBlock {
+    // The block, or its parent, failed verification and was deleted while this task was queued:
+    // give the block the verdict the verify stage would have given it.
+    fn abandon(&self, task: LonelyBlockHash, reason: &str) {
+        let block_hash = task.hash();
+        error!(
+            "abandon unverified block {}-{}: {}",
+            task.number(),
+            block_hash,
+            reason
+        );
+        delete_unverified_block(
+            self.shared.store(),
+            block_hash.clone(),
+            task.number(),
+            task.parent_hash(),
+        );
+        self.shared
+            .insert_block_status(block_hash.clone(), BlockStatus::BLOCK_INVALID);
+        self.is_pending_verify.remove(&block_hash);
+        task.execute_callback(Err(InternalErrorKind::Other
+            .other(format!("block {block_hash}: {reason}"))
+            .into()));
+    }
+
+    fn load_full_unverified_block_by_hash(&self, task: LonelyBlockHash) -> Option<UnverifiedBlock> {
         let _trace_timecost = ckb_metrics::handle()
             .map(|metrics| metrics.ckb_chain_load_full_unverified_block.start_timer());
 
+        let Some(block_view) = self.shared.store().get_block(&task.hash()) else {
+            self.abandon(task, "no longer stored, a duplicate failed verification");
+            return None;
+        };
+        let Some(parent_header) = self.shared.store().get_block_header(&task.parent_hash()) else {
+            self.abandon(task, "parent no longer stored, it failed verification");
+            return None;
+        };
+
         let LonelyBlockHash {
-            block_number_and_hash,
-            parent_hash,
+            block_number_and_hash: _block_number_and_hash,
+            parent_hash: _parent_hash,
             epoch_number: _epoch_number,
             switch,
             verify_callback,
         } = task;
-
-        let block_view = self
-            .shared
-            .store()
-            .get_block(&block_number_and_hash.hash())
-            .expect("block stored");
         let block = Arc::new(block_view);
-        let parent_header = {
-            self.shared
-                .store()
-                .get_block_header(&parent_hash)
-                .expect("parent header stored")
-        };
 
-        UnverifiedBlock {
+        Some(UnverifiedBlock {
             block,
             switch,
             verify_callback,
             parent_header,
-        }
+        })
     }
 }
 
